@@ -37,20 +37,82 @@ const inlMarker = "ZZINLN"
 
 func knownFuncsPath() string { return filepath.Join(specDir, "known_funcs.json") }
 
+// knownFn: what the reviewed table records about a function, enough to recognise it after a rename.
+type knownFn struct {
+	File  string   `json:"file"`
+	Sig   string   `json:"sig"`
+	Calls []string `json:"calls"`
+}
+
+var knownInfo map[string]knownFn
+
 func loadKnownFuncs() map[string]bool {
 	b, err := os.ReadFile(knownFuncsPath())
 	if err != nil {
 		return nil
 	}
-	var l []string
+	var l map[string]knownFn
 	if json.Unmarshal(b, &l) != nil {
 		return nil
 	}
+	knownInfo = l
 	m := map[string]bool{}
-	for _, k := range l {
+	for k := range l {
 		m[k] = true
 	}
 	return m
+}
+
+// declSig: the parameter and result types of a declaration as written (names dropped).
+func declSig(fset *token.FileSet, fd *ast.FuncDecl) string {
+	part := func(fl *ast.FieldList) string {
+		if fl == nil {
+			return ""
+		}
+		var ts []string
+		for _, f := range fl.List {
+			var buf bytes.Buffer
+			printer.Fprint(&buf, fset, f.Type)
+			n := len(f.Names)
+			if n == 0 {
+				n = 1
+			}
+			for i := 0; i < n; i++ {
+				ts = append(ts, buf.String())
+			}
+		}
+		return strings.Join(ts, ",")
+	}
+	return "(" + part(fd.Type.Params) + ")(" + part(fd.Type.Results) + ")"
+}
+
+// declCalls: names called and string literals used in the body (a cheap fingerprint of what the function does).
+func declCalls(fd *ast.FuncDecl) []string {
+	set := map[string]bool{}
+	if fd.Body != nil {
+		ast.Inspect(fd.Body, func(n ast.Node) bool {
+			switch x := n.(type) {
+			case *ast.CallExpr:
+				switch f := ast.Unparen(x.Fun).(type) {
+				case *ast.Ident:
+					set[f.Name] = true
+				case *ast.SelectorExpr:
+					set[f.Sel.Name] = true
+				}
+			case *ast.BasicLit:
+				if x.Kind == token.STRING && len(x.Value) < 60 {
+					set[x.Value] = true
+				}
+			}
+			return true
+		})
+	}
+	var out []string
+	for k := range set {
+		out = append(out, k)
+	}
+	sort.Strings(out)
+	return out
 }
 
 func recvTypeName(fd *ast.FuncDecl) string {
@@ -79,13 +141,20 @@ func recvTypeName(fd *ast.FuncDecl) string {
 	}
 }
 
+// recvAlias: current receiver type name -> reviewed name, per package dir ("rel|Type").
+var recvAlias = map[string]string{}
+
 func funcDeclKey(relDir string, fd *ast.FuncDecl) string {
-	return relDir + "|" + recvTypeName(fd) + "." + fd.Name.Name
+	rt := recvTypeName(fd)
+	if a, ok := recvAlias[relDir+"|"+rt]; ok {
+		rt = a
+	}
+	return relDir + "|" + rt + "." + fd.Name.Name
 }
 
 // genKnownFuncs lists every function declaration of the module's non-test files (all build configurations).
-func genKnownFuncs(repo string) ([]string, error) {
-	var keys []string
+func genKnownFuncs(repo string) (map[string]knownFn, error) {
+	keys := map[string]knownFn{}
 	fset := token.NewFileSet()
 	err := filepath.Walk(repo, func(p string, fi os.FileInfo, err error) error {
 		if err != nil {
@@ -107,14 +176,493 @@ func genKnownFuncs(repo string) ([]string, error) {
 		rel, _ := filepath.Rel(repo, filepath.Dir(p))
 		for _, d := range f.Decls {
 			if fd, ok := d.(*ast.FuncDecl); ok {
-				keys = append(keys, funcDeclKey(rel, fd))
+				keys[funcDeclKey(rel, fd)] = knownFn{File: filepath.Base(p), Sig: declSig(fset, fd), Calls: declCalls(fd)}
 			}
 		}
 		return nil
 	})
-	sort.Strings(keys)
-	keys = uniq(keys)
 	return keys, err
+}
+
+// ---- struct fields: a field that keeps its position and type but changes its name keeps its reviewed name in renderings
+
+type knownField struct {
+	Name string `json:"name"`
+	Type string `json:"type"`
+}
+
+func knownFieldsPath() string { return filepath.Join(specDir, "known_fields.json") }
+
+func structFieldsOf(fset *token.FileSet, st *ast.StructType) []knownField {
+	var out []knownField
+	for _, f := range st.Fields.List {
+		var buf bytes.Buffer
+		printer.Fprint(&buf, fset, f.Type)
+		if len(f.Names) == 0 {
+			out = append(out, knownField{"", buf.String()})
+			continue
+		}
+		for _, n := range f.Names {
+			out = append(out, knownField{n.Name, buf.String()})
+		}
+	}
+	return out
+}
+
+func genKnownFields(repo string) (map[string][]knownField, error) {
+	out := map[string][]knownField{}
+	fset := token.NewFileSet()
+	err := filepath.Walk(repo, func(p string, fi os.FileInfo, err error) error {
+		if err != nil {
+			return nil
+		}
+		if fi.IsDir() {
+			if n := fi.Name(); p != repo && (strings.HasPrefix(n, ".") || n == "testdata" || n == "vendor") {
+				return filepath.SkipDir
+			}
+			return nil
+		}
+		if !strings.HasSuffix(p, ".go") || strings.HasSuffix(p, "_test.go") {
+			return nil
+		}
+		f, perr := parseFile(fset, p)
+		if perr != nil {
+			return nil
+		}
+		rel, _ := filepath.Rel(repo, filepath.Dir(p))
+		for _, d := range f.Decls {
+			gd, ok := d.(*ast.GenDecl)
+			if !ok || gd.Tok != token.TYPE {
+				continue
+			}
+			for _, sp := range gd.Specs {
+				ts := sp.(*ast.TypeSpec)
+				if st, ok := ts.Type.(*ast.StructType); ok {
+					out[rel+"|"+ts.Name.Name] = structFieldsOf(fset, st)
+				}
+			}
+		}
+		return nil
+	})
+	return out, err
+}
+
+// fieldAlias: field object -> reviewed name (consulted by fieldName).
+var fieldAlias = map[*types.Var]string{}
+
+func detectFieldRenames(c *Ctx) []string {
+	fieldAlias = map[*types.Var]string{}
+	b, err := os.ReadFile(knownFieldsPath())
+	if err != nil {
+		return nil
+	}
+	var known map[string][]knownField
+	if json.Unmarshal(b, &known) != nil {
+		return nil
+	}
+	var notes []string
+	for _, p := range c.Pkgs {
+		if !(p.PkgPath == modPath || strings.HasPrefix(p.PkgPath, modPath+"/")) || strings.Contains(p.PkgPath, "/zz_ref_") || p.TypesInfo == nil {
+			continue
+		}
+		for _, f := range p.Syntax {
+			rel, err := filepath.Rel(c.Cfg.Dir, filepath.Dir(c.Fset.Position(f.Pos()).Filename))
+			if err != nil {
+				continue
+			}
+			for _, d := range f.Decls {
+				gd, ok := d.(*ast.GenDecl)
+				if !ok || gd.Tok != token.TYPE {
+					continue
+				}
+				for _, sp := range gd.Specs {
+					ts := sp.(*ast.TypeSpec)
+					st, ok := ts.Type.(*ast.StructType)
+					old, has := known[rel+"|"+ts.Name.Name]
+					if !ok || !has {
+						continue
+					}
+					cur := structFieldsOf(c.Fset, st)
+					if len(cur) != len(old) {
+						continue
+					}
+					same := true
+					for i := range cur {
+						if cur[i].Type != old[i].Type {
+							same = false
+						}
+					}
+					if !same {
+						continue
+					}
+					tn, _ := p.TypesInfo.Defs[ts.Name].(*types.TypeName)
+					if tn == nil {
+						continue
+					}
+					tst, _ := tn.Type().Underlying().(*types.Struct)
+					if tst == nil || tst.NumFields() != len(cur) {
+						continue
+					}
+					curNames := map[string]bool{}
+					for _, x := range cur {
+						curNames[x.Name] = true
+					}
+					for i := range cur {
+						if cur[i].Name != old[i].Name && old[i].Name != "" && cur[i].Name != "" && !curNames[old[i].Name] {
+							fieldAlias[tst.Field(i)] = old[i].Name
+							notes = append(notes, fmt.Sprintf("field %s.%s is the reviewed field %s under a new name", ts.Name.Name, cur[i].Name, old[i].Name))
+						}
+					}
+				}
+			}
+		}
+	}
+	sort.Strings(notes)
+	return notes
+}
+
+// ---- package-level identifiers (variables, constants, types): same declaration text under a new name
+
+type knownIdent struct {
+	File string `json:"file"`
+	Kind string `json:"kind"`
+	Text string `json:"text"`
+}
+
+func knownIdentsPath() string { return filepath.Join(specDir, "known_idents.json") }
+
+// declaredIdents lists the package-level vars/consts/types of a file with the text of their declaration (name left out).
+func declaredIdents(fset *token.FileSet, f *ast.File) map[string]knownIdent {
+	out := map[string]knownIdent{}
+	txt := func(n ast.Node) string {
+		if n == nil || isNilNode(n) {
+			return ""
+		}
+		// comments attached to struct fields are not part of the declaration's identity
+		type saved struct {
+			f    *ast.Field
+			d, c *ast.CommentGroup
+		}
+		var sv []saved
+		ast.Inspect(n, func(m ast.Node) bool {
+			if fl, ok := m.(*ast.Field); ok && (fl.Doc != nil || fl.Comment != nil) {
+				sv = append(sv, saved{fl, fl.Doc, fl.Comment})
+				fl.Doc, fl.Comment = nil, nil
+			}
+			return true
+		})
+		var buf bytes.Buffer
+		printer.Fprint(&buf, fset, n)
+		for _, x := range sv {
+			x.f.Doc, x.f.Comment = x.d, x.c
+		}
+		return strings.Join(strings.Fields(buf.String()), " ")
+	}
+	file := filepath.Base(fset.Position(f.Pos()).Filename)
+	for _, d := range f.Decls {
+		gd, ok := d.(*ast.GenDecl)
+		if !ok {
+			continue
+		}
+		for _, sp := range gd.Specs {
+			switch x := sp.(type) {
+			case *ast.TypeSpec:
+				out[x.Name.Name] = knownIdent{file, "type", txt(x.Type)}
+			case *ast.ValueSpec:
+				kind := "var"
+				if gd.Tok == token.CONST {
+					kind = "const"
+				}
+				for i, n := range x.Names {
+					if n.Name == "_" {
+						continue
+					}
+					v := ""
+					if i < len(x.Values) {
+						v = txt(x.Values[i])
+					} else if len(x.Values) == 1 {
+						v = txt(x.Values[0]) + "#" + strconv.Itoa(i)
+					}
+					var t string
+					if x.Type != nil {
+						t = txt(x.Type)
+					}
+					out[n.Name] = knownIdent{file, kind, t + "=" + v}
+				}
+			}
+		}
+	}
+	return out
+}
+
+func genKnownIdents(repo string) (map[string]knownIdent, error) {
+	out := map[string]knownIdent{}
+	fset := token.NewFileSet()
+	err := filepath.Walk(repo, func(p string, fi os.FileInfo, err error) error {
+		if err != nil {
+			return nil
+		}
+		if fi.IsDir() {
+			if n := fi.Name(); p != repo && (strings.HasPrefix(n, ".") || n == "testdata" || n == "vendor") {
+				return filepath.SkipDir
+			}
+			return nil
+		}
+		if !strings.HasSuffix(p, ".go") || strings.HasSuffix(p, "_test.go") {
+			return nil
+		}
+		f, perr := parser.ParseFile(fset, p, nil, parser.SkipObjectResolution)
+		if perr != nil {
+			return nil
+		}
+		rel, _ := filepath.Rel(repo, filepath.Dir(p))
+		for n, ki := range declaredIdents(fset, f) {
+			out[rel+"|"+n] = ki
+		}
+		return nil
+	})
+	return out, err
+}
+
+// identSubst: rendered `pkgname.New` -> `pkgname.Old` for renamed package-level identifiers (applied by shorten and typeName).
+var identSubst [][2]string
+
+// detectIdentRenames fills c.IdentNow (reviewed name -> current name per package dir) and identSubst.
+func detectIdentRenames(c *Ctx) []string {
+	identSubst = nil
+	c.IdentNow = map[string]string{}
+	b, err := os.ReadFile(knownIdentsPath())
+	if err != nil {
+		return nil
+	}
+	var known map[string]knownIdent
+	if json.Unmarshal(b, &known) != nil {
+		return nil
+	}
+	var notes []string
+	for _, p := range c.Pkgs {
+		if !(p.PkgPath == modPath || strings.HasPrefix(p.PkgPath, modPath+"/")) || strings.Contains(p.PkgPath, "/zz_ref_") || len(p.Syntax) == 0 {
+			continue
+		}
+		cur := map[string]knownIdent{}
+		loaded := map[string]bool{}
+		rel := ""
+		for _, f := range p.Syntax {
+			fn := c.Fset.Position(f.Pos()).Filename
+			r, err := filepath.Rel(c.Cfg.Dir, filepath.Dir(fn))
+			if err != nil {
+				continue
+			}
+			rel = r
+			loaded[filepath.Base(fn)] = true
+			for n, ki := range declaredIdents(c.Fset, f) {
+				cur[n] = ki
+			}
+		}
+		var fresh, missing []string
+		for n := range cur {
+			if _, ok := known[rel+"|"+n]; !ok {
+				fresh = append(fresh, n)
+			}
+		}
+		for k, ki := range known {
+			if !strings.HasPrefix(k, rel+"|") {
+				continue
+			}
+			n := k[len(rel)+1:]
+			if _, ok := cur[n]; ok {
+				continue
+			}
+			if _, err := os.Stat(filepath.Join(c.Cfg.Dir, rel, ki.File)); err == nil && !loaded[ki.File] {
+				continue
+			}
+			missing = append(missing, n)
+		}
+		if len(fresh) == 0 || len(missing) == 0 {
+			continue
+		}
+		sort.Strings(fresh)
+		sort.Strings(missing)
+		// a renamed type changes the text of declarations that mention it: compare modulo the candidate pair itself
+		norm := func(text, name string) string {
+			return replaceIdent(text, name, "\x00")
+		}
+		fw := map[string][]string{}
+		bw := map[string][]string{}
+		for _, nf := range fresh {
+			for _, om := range missing {
+				a, bk := cur[nf], known[rel+"|"+om]
+				if a.Kind == bk.Kind && norm(a.Text, nf) == norm(bk.Text, om) {
+					fw[nf] = append(fw[nf], om)
+					bw[om] = append(bw[om], nf)
+				}
+			}
+		}
+		for nf, oms := range fw {
+			if len(oms) == 1 && len(bw[oms[0]]) == 1 {
+				c.IdentNow[rel+"|"+oms[0]] = nf
+				q := p.Name
+				identSubst = append(identSubst, [2]string{q + "." + nf, q + "." + oms[0]})
+				notes = append(notes, fmt.Sprintf("%s %s.%s is the reviewed %s under a new name", cur[nf].Kind, q, nf, oms[0]))
+			}
+		}
+	}
+	sort.Strings(notes)
+	return notes
+}
+
+// replaceIdent replaces whole-identifier occurrences of name in text.
+func replaceIdent(text, name, with string) string {
+	var b strings.Builder
+	isID := func(ch byte) bool {
+		return ch == '_' || ch >= '0' && ch <= '9' || ch >= 'a' && ch <= 'z' || ch >= 'A' && ch <= 'Z'
+	}
+	for i := 0; i < len(text); {
+		if strings.HasPrefix(text[i:], name) && (i == 0 || !isID(text[i-1])) && (i+len(name) >= len(text) || !isID(text[i+len(name)])) {
+			b.WriteString(with)
+			i += len(name)
+			continue
+		}
+		b.WriteByte(text[i])
+		i++
+	}
+	return b.String()
+}
+
+// nowName: the current name of a reviewed package-level identifier.
+func (c *Ctx) nowName(rel, name string) string {
+	if rel == "" {
+		rel = "."
+	}
+	if n, ok := c.IdentNow[rel+"|"+name]; ok {
+		return n
+	}
+	return name
+}
+
+func applySubst(s string, table [][2]string) string {
+	for _, r := range table {
+		s = replaceQualified(s, r[0], r[1])
+	}
+	return s
+}
+
+func replaceQualified(s, from, to string) string {
+	isID := func(ch byte) bool {
+		return ch == '_' || ch >= '0' && ch <= '9' || ch >= 'a' && ch <= 'z' || ch >= 'A' && ch <= 'Z'
+	}
+	for at := 0; ; {
+		i := strings.Index(s[at:], from)
+		if i < 0 {
+			return s
+		}
+		i += at
+		end := i + len(from)
+		if (end < len(s) && isID(s[end])) || (i > 0 && (isID(s[i-1]) || s[i-1] == '/')) {
+			at = end
+			continue
+		}
+		s = s[:i] + to + s[end:]
+		at = i + len(to)
+	}
+}
+
+// detectRenames pairs functions that are not in the reviewed table with reviewed functions that have disappeared
+// from the same package: same receiver type, same signature as written, similar body fingerprint, and no other
+// candidate. A pair is a rename: the function keeps its reviewed identity (it is not expanded, anchors and rendered
+// names use the reviewed name).
+func detectRenames(c *Ctx, known map[string]bool) (map[string]string, []string) {
+	out := map[string]string{}
+	var notes []string
+	type decl struct {
+		key string
+		fd  *ast.FuncDecl
+	}
+	byDir := map[string][]decl{}
+	present := map[string]bool{}
+	loadedFiles := map[string]bool{}
+	for _, p := range c.Pkgs {
+		if !(p.PkgPath == modPath || strings.HasPrefix(p.PkgPath, modPath+"/")) || strings.Contains(p.PkgPath, "/zz_ref_") {
+			continue
+		}
+		for _, f := range p.Syntax {
+			fn := c.Fset.Position(f.Pos()).Filename
+			rel, err := filepath.Rel(c.Cfg.Dir, filepath.Dir(fn))
+			if err != nil || strings.HasPrefix(rel, "..") {
+				continue
+			}
+			loadedFiles[rel+"/"+filepath.Base(fn)] = true
+			for _, d := range f.Decls {
+				if fd, ok := d.(*ast.FuncDecl); ok {
+					k := funcDeclKey(rel, fd)
+					present[k] = true
+					if !known[k] {
+						byDir[rel] = append(byDir[rel], decl{k, fd})
+					}
+				}
+			}
+		}
+	}
+	if len(byDir) == 0 {
+		return out, nil
+	}
+	jaccard := func(a, b []string) float64 {
+		if len(a) == 0 && len(b) == 0 {
+			return 1
+		}
+		set := map[string]bool{}
+		for _, x := range a {
+			set[x] = true
+		}
+		inter := 0
+		for _, x := range b {
+			if set[x] {
+				inter++
+			}
+		}
+		return float64(inter) / float64(len(a)+len(b)-inter)
+	}
+	for rel, fresh := range byDir {
+		var missing []string
+		for k, info := range knownInfo {
+			if !strings.HasPrefix(k, rel+"|") || present[k] {
+				continue
+			}
+			// a reviewed function whose file still exists but is not part of this build configuration is not missing
+			if _, err := os.Stat(filepath.Join(c.Cfg.Dir, rel, info.File)); err == nil && !loadedFiles[rel+"/"+info.File] {
+				continue
+			}
+			missing = append(missing, k)
+		}
+		sort.Strings(missing)
+		recvOf := func(k string) string { s := k[strings.Index(k, "|")+1:]; return s[:strings.LastIndex(s, ".")] }
+		cand := map[string][]string{} // fresh key -> matching missing keys
+		back := map[string][]string{}
+		for _, d := range fresh {
+			sig := declSig(c.Fset, d.fd)
+			for k, old := range recvAlias {
+				if strings.HasPrefix(k, rel+"|") {
+					sig = replaceIdent(sig, k[len(rel)+1:], old)
+				}
+			}
+			calls := declCalls(d.fd)
+			for _, m := range missing {
+				info := knownInfo[m]
+				if recvOf(m) == recvOf(d.key) && info.Sig == sig && jaccard(info.Calls, calls) >= 0.5 {
+					cand[d.key] = append(cand[d.key], m)
+					back[m] = append(back[m], d.key)
+				}
+			}
+		}
+		for nk, ms := range cand {
+			if len(ms) == 1 && len(back[ms[0]]) == 1 {
+				out[nk] = ms[0]
+				notes = append(notes, fmt.Sprintf("%s is the reviewed function %s under a new name", nk, ms[0]))
+			}
+		}
+	}
+	sort.Strings(notes)
+	return out, notes
 }
 
 func parseFile(fset *token.FileSet, path string) (*ast.File, error) {
